@@ -18,7 +18,7 @@ SPEC_TARGETS = {"syn::Expr", "syn::Path", "syn::Ident", "IdentString", "Callable
                 "syn::Lit", "syn::LitInt", "syn::LitFloat", "syn::LitStr", "syn::LitByte", "syn::LitByteStr", "syn::LitChar", "syn::LitBool",
                 "helper:preserve", "helper:parse"} | {t for t in TARGETS if t.startswith("syn::Type") or t in ("syn::Visibility", "syn::WhereClause")}
 
-PATHS = ["<T>::x", "a", "foo::<u8>", "foo::<Vec<u8>>", "a::b", "::a::b", "a::b::<T>", "Vec<u8>", "<T as Tr>::x", "self", "Self::A", "crate::m::f", "r#type", "r#type::x",
+PATHS = ["<T>::x", "a", "::a", "::r#type", "::a::<u8>", "foo::<u8>", "foo::<Vec<u8>>", "a::b", "::a::b", "a::b::<T>", "Vec<u8>", "<T as Tr>::x", "self", "Self::A", "crate::m::f", "r#type", "r#type::x",
          "std::collections::HashMap<String, Vec<u8>>", "a::<'x>::b"]
 IDENTS = ["a", "foo_bar", "r#type", "r#match", "Self", "self", "_x", "x1"]
 EXPRS = ["a + b", "f(x, y)", "|a| a + 1", "|a, b| a", "{ 1 }", "[1, 2, 3]", "[]", "[a, b::c]", "1..2", "..", "..=5", "a..", "(a, b)",
